@@ -39,7 +39,18 @@ func planted(cfg fw.Config, rec *fw.Rec, idx int) {
 		rec.Bucket("generator_outside_fragment")
 		return
 	}
-	bss, err, panicked := callMatch(rec, mc, mc.Pattern, mc.Message, mc.In)
+	in := mc.In
+	if idx%5 == 3 && len(in) > 0 {
+		// the given bindings as Go code (or an action's result that never went through JSON)
+		// has them: whole numbers as int, int64, float32
+		typed := gen.GoTyped(r, in, nil, true).(map[string]interface{})
+		if fw.Diff(in, typed) != "" {
+			in = typed
+			mc.In = typed
+			rec.Bucket("planted_with_go_typed_numbers_in_the_given_bindings")
+		}
+	}
+	bss, err, panicked := callMatch(rec, mc, mc.Pattern, mc.Message, in)
 	if panicked {
 		return
 	}
@@ -271,7 +282,7 @@ func exhaustive(cfg fw.Config, rec *fw.Rec) {
 
 func Run(cfg fw.Config, rec *fw.Rec) {
 	rec.Rule = "(1) planted: pattern + assignment -> instantiated message, exact or inflated with extra properties/elements/broken clones at every depth; the planted assignment must be among the results; (2) plain-variable fragment: result set == brute-force set of embeddings; (3) exhaustive: all supported patterns x messages over alphabet {a,b}, variables {?x,?y} up to a node bound, soundness + completeness decided per pair (this sub-space is enumerated completely); non-trivial = >=1 variable and >=1 result; distinct by canonical (pattern,message,bindings)"
-	rec.Required = []string{"planted_inflated", "planted_planted", "plain_set_equality_checked", "plain_several_embeddings", "exhaustive_pairs", "exhaustive_set_equality_checked", "exhaustive_completeness_checked_repeated_vars", "optional_absent", "inequality", "property_variable", "array_variable", "prebound_variable", "repeated_variable"}
+	rec.Required = []string{"planted_inflated", "planted_planted", "plain_set_equality_checked", "plain_several_embeddings", "exhaustive_pairs", "exhaustive_set_equality_checked", "exhaustive_completeness_checked_repeated_vars", "optional_absent", "inequality", "property_variable", "array_variable", "prebound_variable", "repeated_variable", "planted_with_go_typed_numbers_in_the_given_bindings"}
 	rec.Assume = []string{"completeness is judged only under the property's side conditions: arrays are sets, a value planted under an array variable differs from the array's other members, repeated variables take scalar values", "brute-force candidates are the sub-terms / property names of the message"}
 	t0 := time.Now()
 	fw.Parallel(cfg.Workers, cfg.Pick(300000, 6000000), func(w, idx int) { planted(cfg, rec, idx) })
